@@ -74,4 +74,33 @@ def recoverKey (ops : CryptoOps P) (v s : Nat) (R : P) (index : Nat) (i j : Nat)
 /-- `TxOutTarget::check_view_tag`: first byte of Keccak("view_tag" ‖ rv ‖ varint(index)) -/
 def viewTagOf (ops : CryptoOps P) (D : P) (index : Nat) : UInt8 :=
   (ops.keccak (Gen.viewTagSalt ++ ops.enc D ++ encVarint index)).headD 0
+/-! ### separately written counterparts (added after the audit of C09–C11; the definitions above are unchanged)
+
+The two constructors of `KeyGenerator` are two Rust bodies; above both are `derive`. Here each has its own definition,
+mirroring its own source line, so that a statement "sender = receiver" relates two functions (Props/C10 proves both equal
+to `derive`). -/
+
+/-- `KeyGenerator::from_random(view, spend, random).rv` (onetime_key.rs:82-86):
+`PrivateKey::from_scalar(MONERO_MUL_FACTOR.into()) * &(random * &view)` -/
+def deriveSender (ops : CryptoOps P) (random : Nat) (view : P) : P :=
+  let rV := ops.smul random view
+  ops.smul (Gen.mulFactor % ops.l) rV
+
+/-- `KeyGenerator::from_key(keys, random).rv` (onetime_key.rs:90-97):
+`PrivateKey::from_scalar(MONERO_MUL_FACTOR.into()) * &(keys.view * &random)` -/
+def deriveReceiver (ops : CryptoOps P) (keysView : Nat) (random : P) : P :=
+  let vR := ops.smul keysView random
+  ops.smul (Gen.mulFactor % ops.l) vR
+
+/-- `KeyGenerator::check(index, key)` (onetime_key.rs:107-109) on a generator with `rv = D`, `spend = S`:
+`key == self.one_time_key(index)`; `PublicKey`'s `==` is that of the 32 compressed bytes -/
+def keyGenCheck (ops : CryptoOps P) (D S : P) (index : Nat) (key : P) : Bool :=
+  ops.enc key == ops.enc (oneTimeKey ops D S index)
+
+/-- `subaddress::get_secret_keys` (subaddress.rs:103-107): `KeyPair { view: get_view_secret_key, spend: get_spend_secret_key }`,
+as the pair (view, spend) -/
+def subSecretKeys (ops : CryptoOps P) (v s : Nat) (i j : Nat) : Nat × Nat :=
+  let view := subViewSec ops v s i j
+  let spend := subSpendSec ops v s i j
+  (view, spend)
 end Monero
